@@ -365,6 +365,7 @@ def lenV : V α → Except PyErr (V α)
   | .deque _ l => .ok (.int l.length)
   | .str u => .ok (.int u.length)
   | .rlist l => .ok (.int l.length)
+  | .ivs l => .ok (.int l.length)
   | v => match asList v with
          | some l => .ok (.int l.length)
          | none => .error .type
